@@ -781,18 +781,16 @@ func (wf *WALFileType) SyncWAL(walRefresh, primaryRefresh time.Duration, walRota
 
 // RequestFlush requests WAL Flush to the WAL writer goroutine
 // if it exists, or just does the work in the same goroutine otherwise.
-// The function blocks if there are no current queued flushes, and
-// returns if there is already one queued which will handle the data
-// present in the write channel, as it will flush as soon as possible.
+// The function blocks until a flush that started after the caller queued
+// its commands has completed. (It used to return at once when another flush
+// request was already queued; that request's flush does pick the caller's
+// commands up, but the caller was then acknowledged before its data had
+// reached the WAL or become visible to queries.)
 func (wf *WALFileType) RequestFlush() {
 	if !haveWALWriter {
 		if err := wf.FlushToWAL(); err != nil {
 			log.Error("failed to flush WAL", zap.Error(err))
 		}
-		return
-	}
-	// if there's already a queued flush, no need to queue another
-	if len(wf.txnPipe.flushChannel) > 0 {
 		return
 	}
 	f := make(chan struct{})
